@@ -13,6 +13,7 @@ package main
 import (
 	"bufio"
 	"encoding/json"
+	"errors"
 	"flag"
 	"fmt"
 	"os"
@@ -24,6 +25,8 @@ import (
 	"strconv"
 	"strings"
 	"sync"
+	"sync/atomic"
+	"syscall"
 	"time"
 
 	"github.com/juev/hledger-lsp/internal/verifsim/engine"
@@ -332,7 +335,20 @@ func cmdReplay(args []string) int {
 		c.Env = append(os.Environ(), "VERIF_FATAL_CHILD=1")
 		var eb strings.Builder
 		c.Stderr = &eb
-		err := c.Run()
+		err := runLimited(c, hangReplayLimit)
+		if rf.Class == "hang" {
+			if err == errTimedOut {
+				if !*quiet {
+					fmt.Printf("the child process replaying the choice list did not finish within %v again (a run takes milliseconds)\n", hangReplayLimit)
+					fmt.Printf("VIOLATION property=%s replay=%s\n", rf.Property, *file)
+				}
+				return 1
+			}
+			if !*quiet {
+				fmt.Println("replay did not reproduce the recorded hang on this tree")
+			}
+			return 0
+		}
 		got, fromCode := fatalClass(eb.String())
 		if err != nil && fromCode && "fatal-"+sanitize(got) == rf.Class {
 			if !*quiet {
@@ -450,7 +466,28 @@ func cmdCheck(args []string) int {
 			sc.Buffer(make([]byte, 1<<20), 1<<30)
 			lastStart := uint64(0)
 			started := uint64(0)
+			var lastOut atomic.Int64
+			lastOut.Store(time.Now().UnixNano())
+			var hung atomic.Bool
+			wdDone := make(chan struct{})
+			go func() {
+				tk := time.NewTicker(time.Second)
+				defer tk.Stop()
+				for {
+					select {
+					case <-wdDone:
+						return
+					case <-tk.C:
+						if time.Since(time.Unix(0, lastOut.Load())) > noProgress && !hung.Load() {
+							hung.Store(true)
+							cmd.Process.Signal(syscall.SIGQUIT) // goroutine dump on stderr, then exit
+							time.AfterFunc(5*time.Second, func() { cmd.Process.Kill() })
+						}
+					}
+				}
+			}()
 			for sc.Scan() {
+				lastOut.Store(time.Now().UnixNano())
 				var wo workerOut
 				if err := json.Unmarshal(sc.Bytes(), &wo); err != nil {
 					continue
@@ -486,7 +523,30 @@ func cmdCheck(args []string) int {
 				mu.Unlock()
 			}
 			err := cmd.Wait()
+			close(wdDone)
 			if err == nil {
+				return
+			}
+			if hung.Load() {
+				if fromCode, _ := hangFromCode(errBuf.String()); fromCode && started > 0 && lastStart < 1<<40 {
+					mu.Lock()
+					fatalFails = append(fatalFails, &fatalFail{Idx: lastStart, Class: hangClass, Report: errBuf.String(), Hang: true})
+					if tag == "" {
+						nruns += int64(started)
+					}
+					mu.Unlock()
+					enumN = 0
+					if started >= per {
+						return
+					}
+					per -= started
+					from = lastStart + uint64(nw)
+					continue
+				}
+				fmt.Fprintf(os.Stderr, "worker %d (%s) made no progress for %v at run %d and was killed\n%s", w, filepath.Base(bin), noProgress, lastStart, trunc(errBuf.String(), 20000))
+				mu.Lock()
+				trouble = true
+				mu.Unlock()
 				return
 			}
 			if ee, ok := err.(*exec.ExitError); ok && ee.ExitCode() == 66 && tag != "" && strings.Contains(errBuf.String(), "DATA RACE") {
@@ -540,9 +600,17 @@ func cmdCheck(args []string) int {
 		}
 		wg.Wait()
 	}
-	if trouble {
+	if trouble && len(fatalFails) == 0 {
 		fmt.Fprintln(os.Stderr, "harness trouble: a worker failed (see above)")
 		return 2
+	}
+	if trouble {
+		// some workers died or hung in a way that could be pinned on the code
+		// under test, others not: the former are confirmed and reported below,
+		// and nothing else of this check run is triaged
+		fmt.Fprintln(os.Stderr, "note: a worker failed (see above); fatal errors / hangs of the code under test were seen as well and are confirmed first")
+		fails = nil
+		raceFails = nil
 	}
 	searchWall := time.Since(start).Seconds()
 
@@ -756,12 +824,20 @@ func cmdCheck(args []string) int {
 		v := &engine.Violation{Property: *prop, Oracle: "invariant", Class: "fatal-" + sanitize(ff.Class),
 			Msg: "the code under test ends in a fatal error of the Go runtime (the process dies; no recover can catch it): " + ff.Class + "\n" + fatalTop(ff.Report)}
 		self, _ := os.Executable()
+		if ff.Hang {
+			_, top := hangFromCode(ff.Report)
+			v.Class = "hang"
+			v.Msg = "the code under test never finishes this run: " + hangClass + "; where it was after " + noProgress.String() + ":\n" + top
+		}
 		rec := filepath.Join(os.TempDir(), fmt.Sprintf("verif-fatal-%d-%d.choices", os.Getpid(), ff.Idx))
 		cmd := exec.Command(self, "fatalrun", "-engine", *eng, "-tier", *tier, "-seed", fmt.Sprint(*seed), "-idx", fmt.Sprint(ff.Idx), "-known", *known, "-record", rec)
 		var eb strings.Builder
 		cmd.Stderr = &eb
-		err := cmd.Run()
+		err := runLimited(cmd, hangReplayLimit)
 		cls, _ := fatalClass(eb.String())
+		if ff.Hang && err == errTimedOut {
+			cls = hangClass
+		}
 		var choices []int
 		if b, rerr := os.ReadFile(rec); rerr == nil {
 			for _, f := range strings.Fields(string(b)) {
@@ -779,20 +855,28 @@ func cmdCheck(args []string) int {
 			c.Env = append(os.Environ(), "VERIF_FATAL_CHILD=1")
 			var e2 strings.Builder
 			c.Stderr = &e2
-			if c.Run() == nil {
+			err := runLimited(c, hangReplayLimit)
+			if err == nil {
 				return false
+			}
+			if ff.Hang {
+				return err == errTimedOut
 			}
 			got, fromCode := fatalClass(e2.String())
 			return fromCode && got == ff.Class
 		}
-		if err == nil || cls != ff.Class || !fatalReplay(choices) || !fatalReplay(choices) {
+		if err == nil || cls != ff.Class || !fatalReplay(choices) || (!ff.Hang && !fatalReplay(choices)) {
 			fmt.Fprintf(os.Stderr, "harness trouble: fatal error %q of run %d does not reproduce in a fresh process\n%s\n", ff.Class, ff.Idx, trunc(ff.Report, 4000))
 			raceTrouble = true
 			continue
 		}
-		min := shrink(choices, func(ch []int) (*runResult, bool) {
-			return &runResult{Choices: ch}, fatalReplay(ch)
-		}, 40)
+		min := choices
+		if !ff.Hang {
+			// (a hang costs hangReplayLimit per attempt: reported unshrunk)
+			min = shrink(choices, func(ch []int) (*runResult, bool) {
+				return &runResult{Choices: ch}, fatalReplay(ch)
+			}, 40)
+		}
 		path := writeReplay(*replays, *prop, *eng, v, *seed, f, min, nil, *tier, false, *repoHead, "")
 		markFatal(path)
 		fmt.Printf("VIOLATION property=%s replay=%s\n", *prop, path)
@@ -896,6 +980,10 @@ func cmdCheck(args []string) int {
 	if nviol > 0 {
 		return 1
 	}
+	if trouble && nviol == 0 {
+		fmt.Fprintln(os.Stderr, "harness trouble: a worker failed and no fatal error / hang of the code under test could be confirmed")
+		return 2
+	}
 	if raceTrouble || replayTrouble {
 		// a race report that cannot be replayed and no confirmed violation at all:
 		// the machinery could not do its job (never a pass, never a VIOLATION)
@@ -908,6 +996,56 @@ type fatalFail struct {
 	Idx    uint64
 	Class  string
 	Report string
+	Hang   bool
+}
+
+const hangClass = "no progress (endless loop, or a wait nothing will end)"
+
+// noProgress: a run takes milliseconds; a worker that has not announced its
+// next run for this long is in an endless loop or waits for something no
+// scheduler decision can bring about.
+var noProgress = 45 * time.Second
+
+// hangFromCode: in the goroutine dump a worker prints on SIGQUIT, is there a
+// goroutine whose innermost frame outside the runtime belongs to the code
+// under test? (Tasks the simulator has parked wait inside the simulator.)
+func hangFromCode(dump string) (bool, string) {
+	for _, blk := range strings.Split(dump, "\n\ngoroutine ")[1:] {
+		lines := strings.Split(blk, "\n")
+		if !strings.Contains(lines[0], "[running") && !strings.Contains(lines[0], "[runnable") {
+			continue // parked or blocked: tasks the simulator holds wait inside the simulator
+		}
+		var fns []string
+		for _, l := range lines[1:] {
+			if l == "" || l[0] == '\t' || strings.HasPrefix(l, "created by ") {
+				continue
+			}
+			fns = append(fns, l)
+		}
+		for _, l := range fns {
+			switch {
+			case strings.HasPrefix(l, "runtime."), strings.HasPrefix(l, "internal/"), strings.HasPrefix(l, "sync."), strings.HasPrefix(l, "sync/"), strings.HasPrefix(l, "time."), strings.HasPrefix(l, "strings."), strings.HasPrefix(l, "sort."), strings.HasPrefix(l, "bytes."), strings.HasPrefix(l, "unicode"), strings.HasPrefix(l, "regexp"), strings.HasPrefix(l, "slices."), strings.HasPrefix(l, "maps."):
+				continue
+			case strings.Contains(l, "/internal/verifsim/simrt.Map"), strings.Contains(l, "/internal/verifsim/simsync."), strings.Contains(l, "/internal/verifsim/simfs."), strings.Contains(l, "/internal/verifsim/simclock."), strings.Contains(l, "/internal/verifsim/simexec."):
+				continue // simulated primitives called by the code under test
+			}
+			if strings.HasPrefix(l, "github.com/juev/hledger-lsp/") && !strings.Contains(l, "/internal/verifsim/") && !strings.Contains(l, "/cmd/verifsim") {
+				var top []string
+				for _, f := range fns {
+					if i := strings.LastIndex(f, "("); i > 0 {
+						f = f[:i]
+					}
+					top = append(top, f)
+					if len(top) == 8 {
+						break
+					}
+				}
+				return true, "    " + strings.Join(top, " <- ")
+			}
+			break
+		}
+	}
+	return false, ""
 }
 
 // fatalClass extracts the runtime's "fatal error: ..." line from a dead
@@ -972,6 +1110,27 @@ func fatalTop(stderr string) string {
 		}
 	}
 	return "    " + strings.Join(out, " <- ")
+}
+
+var errTimedOut = errors.New("timed out")
+
+const hangReplayLimit = 30 * time.Second
+
+// runLimited runs cmd and kills it after limit.
+func runLimited(cmd *exec.Cmd, limit time.Duration) error {
+	if err := cmd.Start(); err != nil {
+		return err
+	}
+	done := make(chan error, 1)
+	go func() { done <- cmd.Wait() }()
+	select {
+	case err := <-done:
+		return err
+	case <-time.After(limit):
+		cmd.Process.Kill()
+		<-done
+		return errTimedOut
+	}
 }
 
 func markFatal(path string) {
